@@ -94,7 +94,7 @@ def main():
             "baseline_off_cmd": "cd /repo && GOFLAGS=-mod=mod GOPROXY=off GOSUMDB=off go test -vet=off -count=1 -timeout 25m ./...",
             "source_commits": repo_commits(),
             "add_only": False,
-            "add_only_note": "All hook changes add lines except one: the declaration `ctxPool sync.Pool` in router.go became `ctxPool verifCtxPool` (and the then unused import of sync was dropped). verifCtxPool is a type alias of sync.Pool when the guard is off, so the shipped build is unchanged; with the guard on it is a wrapper through which every Get/Put of the context pool, at any call site, reaches the simulator. Call-site hooks (the first version) missed pool operations added or moved by a change under test.",
+            "add_only_note": "All hook changes add lines except three declarations: `ctxPool sync.Pool` in router.go became `ctxPool verifCtxPool`, and in route_cache.go `lock *sync.RWMutex` / `new(sync.RWMutex)` became `*verifRWMutex` / `new(verifRWMutex)` (the then unused imports of sync were dropped). Both names are type aliases of the sync types when the guard is off, so the shipped build is the same code; with the guard on they are wrappers through which every pool operation and every lock acquisition, at any call site, reaches the simulator. Call-site hooks (the first version) missed operations added or moved by a change under test.",
         },
         "engines": [{"name": "ruxsim", "path": "/verif/ruxsim", "serves_properties": sorted(CLAIMED),
                      "kind_free_text": "deterministic simulator for rux: seeded scheduler passing a baton between request goroutines, simulated ResponseWriter/pool/map-order seams, fault injection, structured shrinking, scenario-file replay"}],
